@@ -151,7 +151,7 @@ fn run_once(sc: &Value, decider: Decider, id: &Value) -> RunOut {
         "obs": gd.obs,
         "diverged": diverged,
         "depth": gd.max_depth,
-        "panic_msg": panic_text,
+        "panic_msg": panic_text.unwrap_or_default(),
     });
     let twosub = sc["twosub"].as_bool().unwrap_or(false);
     let nsinks = gd.sinks.len();
